@@ -19,7 +19,8 @@ CLAIMS = {
     "C20": dict(
         text="26 Coq theorems (axiom-free) covering every field the property names: the conformance block (all 2^17 "
              "flag sets encode to the Green-Book bits and decode back, injective; all 2^24 words decode through the "
-             "Green-Book bits), security control, invoke-id and its 32-bit long form (all id < 2^24, all 2^32 words), "
+             "Green-Book bits), security control, invoke-id and its 32-bit long form (all id < 2^24, all 2^32 words; ids >= 2^24 refused, so encode-then-decode "
+             "is the identity for every constructor argument), "
              "clock status, the six HDLC control bytes (incl. pairwise disjointness and refusal of sequence numbers "
              "> 7), the format field (all 2^16 decodes, all lengths <= 2047, refusal above) and OBIS bytes/dotted. "
              "Finite domains are enumerated completely in the kernel. Tie: conformance table regenerated from the "
@@ -50,12 +51,18 @@ CLAIMS = {
              "length 0..65535; a length field that disagrees with the payload is refused; the transport's send wraps "
              "with version 1, client and server address and the exact length; and tcp_recv returns exactly the "
              "announced payload and leaves the following bytes unread for EVERY schedule of read sizes (induction "
-             "over the schedule, each read >= 1 byte), while an early EOF is an error, never a short APDU. Tie: "
+             "over the schedule, each read >= 1 byte), while an early EOF is an error, never a short APDU; any number of "
+             "messages back to back on one stream: n recv() calls return the n payloads whole and in order, the rest "
+             "unread (induction over the messages); whole send() sessions write exactly the standard wrapped requests, "
+             "one sendall each, and return every answer whole (induction over the requests); soundness with no "
+             "hypothesis on stream or schedule: whatever recv() returns is preceded on the stream by a standard header "
+             "announcing exactly its length and followed by exactly the unread rest. Tie: "
              "correspondence on header/PDU codecs and on the real BlockingTcpTransport over scripted sockets (every "
-             "single/double cut for short messages, random multi-splits, back-to-back messages, EOF).",
+             "single/double cut for short messages, random multi-splits, back-to-back messages, EOF; k calls on one "
+             "transport object; sessions of send() calls with the sendall arguments compared).",
         note="Trusted: Coq kernel, extraction + driver, Python harness incl. the scripted socket; OS read splitting is "
              "quantified as a schedule list, timeouts/OS errors are not modelled. Model follows fix commit 604b133.",
-        technique="Coq proof (induction over read schedules) + correspondence on scripted sockets",
+        technique="Coq proof (induction over read schedules, messages and requests; receive soundness) + correspondence on scripted sockets",
         design="4/C17"),
     "C16": dict(
         text="Coq theorems (axiom-free): for every valid date-time (year 1..9999, Gregorian calendar incl. leap "
